@@ -32,10 +32,12 @@
        read_volume accepts it (identification, version, control hash: read_volume_checks), its stored set hash is the
        one STORED in the index (neither side's computed set hash is compared with anything), its volume number field
        IS k+1 (the loader does check the number field against the number in the file name), its data is d, of the
-       common non-zero size s_size.  B1_volume_unusable: None inside the table => no file or read_volume rejects it.
-       B1_volumes_exact: the table is, position by position, a function of the file map (vslot); it ends at the last
-       usable volume and nothing beyond it (up to the 99 / 256 - count limit) is usable; fc_pusable is the number of
-       volume numbers with a usable file.  par1_verify_counts_truthful: the above for the counts par1_verify returns. *)
+       common non-zero size s_size.  B1_volume_unusable: None inside the table => no file, or read_volume rejects it,
+       or it parses but carries another set hash than the index or another volume number than its file name (a stale
+       or foreign volume: unusable, not fatal).
+       B1_volumes_exact: the table is, position by position, a function of the file map and the index's stored set
+       hash (vslot); it ends at the last usable volume and nothing beyond it (up to the limit of 99 volumes and of
+       256 - the number of SAVED entries) is usable; fc_pusable is the number of volume numbers with a usable file.  par1_verify_counts_truthful: the above for the counts par1_verify returns. *)
 From Coq Require Import Lia ZifyN ZifyNat ZifyBool FinFun.
 From Gopar Require Import Model.Base Model.GF16 Model.Matrix Model.RS16 Model.CRC Model.GoPath Model.FS Model.Par2
      Proofs.GoPathFacts Proofs.Par2Facts Proofs.Par2Create Proofs.Par2Layout Proofs.Par2Verify Proofs.Par2Resync
@@ -1252,13 +1254,51 @@ Section TruthfulPar1.
 
   (** * B1. the parity volumes *)
 
-  (* the slot of volume number k, from the file map: the data of the file at volume_path ix k when read_volume
-     accepts it *)
-  Definition vslot (fs : list (list N * bytes)) (ix : list N) (k : nat) : option bytes :=
+  (* the slot of volume number k, from the file map and the set hash sh stored in the index: the data of the file at
+     volume_path ix k when read_volume accepts it AND it is a volume of the set - it carries the set hash sh and the
+     volume number k of its file name *)
+  Definition vslot (fs : list (list N * bytes)) (ix : list N) (sh : bytes) (k : nat) : option bytes :=
     match fs_lookup fs (volume_path ix (N.of_nat k)) with
-    | Some b => match read_volume md5 b with Ok v => Some (v_data v) | _ => None end
+    | Some b => match read_volume md5 b with
+                | Ok v => if bytes_eqb (v_sethash_stored v) sh && (v_number v =? N.of_nat k) then Some (v_data v) else None
+                | _ => None
+                end
     | None => None
     end.
+
+  Lemma vslot_some fs ix sh k d : vslot fs ix sh k = Some d ->
+    exists b v, fs_lookup fs (volume_path ix (N.of_nat k)) = Some b /\ read_volume md5 b = Ok v /\
+      v_sethash_stored v = sh /\ v_number v = N.of_nat k /\ v_data v = d.
+  Proof.
+    unfold vslot. intros H.
+    destruct (fs_lookup fs (volume_path ix (N.of_nat k))) as [b|]; [|discriminate H].
+    destruct (read_volume md5 b) as [v|x|q] eqn:EV; try discriminate H.
+    destruct (bytes_eqb (v_sethash_stored v) sh) eqn:E1; cbn [andb] in H; [|discriminate H].
+    destruct (v_number v =? N.of_nat k) eqn:E2; [|discriminate H].
+    injection H as <-. exists b, v. split; [reflexivity|]. split; [exact EV|].
+    split; [apply bytes_eqb_eq; exact E1|]. split; [apply N.eqb_eq; exact E2|reflexivity].
+  Qed.
+
+  Lemma vslot_none fs ix sh k : vslot fs ix sh k = None ->
+    fs_lookup fs (volume_path ix (N.of_nat k)) = None \/
+    exists b, fs_lookup fs (volume_path ix (N.of_nat k)) = Some b /\ not_member md5 sh (N.of_nat k) b.
+  Proof.
+    unfold vslot, not_member. intros H.
+    destruct (fs_lookup fs (volume_path ix (N.of_nat k))) as [b|]; [right; exists b; split; [reflexivity|]|left; reflexivity].
+    destruct (read_volume md5 b) as [v|x|q] eqn:EV; [|exact I|exact (read_volume_np md5 b q EV)].
+    destruct (bytes_eqb (v_sethash_stored v) sh) eqn:E1; cbn [andb] in H.
+    - destruct (N.eqb_spec (v_number v) (N.of_nat k)) as [E2|E2]; [discriminate H|right; exact E2].
+    - left. intros E. rewrite E, bytes_eqb_refl in E1. discriminate E1.
+  Qed.
+
+  Lemma vslot_spec fs ix sh k :
+    (forall d, vslot fs ix sh k = Some d ->
+       exists b v, fs_lookup fs (volume_path ix (N.of_nat k)) = Some b /\ read_volume md5 b = Ok v /\
+         v_sethash_stored v = sh /\ v_number v = N.of_nat k /\ v_data v = d) /\
+    (vslot fs ix sh k = None ->
+       fs_lookup fs (volume_path ix (N.of_nat k)) = None \/
+       exists b, fs_lookup fs (volume_path ix (N.of_nat k)) = Some b /\ not_member md5 sh (N.of_nat k) b).
+  Proof. split; [intros d; exact (vslot_some fs ix sh k d)|exact (vslot_none fs ix sh k)]. Qed.
 
   (* what "read_volume accepts" includes *)
   Lemma read_volume_checks b v : read_volume md5 b = Ok v ->
@@ -1283,82 +1323,74 @@ Section TruthfulPar1.
 
   Lemma load_vols_exact ix sh : forall n i size acc st slots size' st', io_sched st = [] ->
     load_vols md5 ix sh i n size acc st = (Ok (slots, size'), st') ->
-    slots = acc ++ map (vslot (io_fs st) ix) (seq (S i) n) /\
-    forall k b v, In k (seq (S i) n) -> fs_lookup (io_fs st) (volume_path ix (N.of_nat k)) = Some b ->
-      read_volume md5 b = Ok v -> v_sethash_stored v = sh /\ v_number v = N.of_nat k.
+    slots = acc ++ map (vslot (io_fs st) ix sh) (seq (S i) n).
   Proof.
     induction n as [|n IH]; intros i size acc st slots size' st' Hs H; cbn [load_vols] in H.
-    - injection H as <- _ _. cbn [seq map]. rewrite app_nil_r. split; [reflexivity|intros k b v []].
+    - injection H as <- _ _. cbn [seq map]. rewrite app_nil_r. reflexivity.
     - destruct (io_read_nosched (volume_path ix (N.of_nat (S i))) st Hs) as (st1 & ER & Hs1 & Hf1).
       rewrite ER in H. unfold read_res in H. cbn [seq map].
       assert (Step : forall size1 o,
                 load_vols md5 ix sh (S i) n size1 (acc ++ [o]) st1 = (Ok (slots, size'), st') ->
-                vslot (io_fs st) ix (S i) = o ->
-                (forall b v, fs_lookup (io_fs st) (volume_path ix (N.of_nat (S i))) = Some b ->
-                   read_volume md5 b = Ok v -> v_sethash_stored v = sh /\ v_number v = N.of_nat (S i)) ->
-                slots = acc ++ vslot (io_fs st) ix (S i) :: map (vslot (io_fs st) ix) (seq (S (S i)) n) /\
-                forall k b v, In k (S i :: seq (S (S i)) n) -> fs_lookup (io_fs st) (volume_path ix (N.of_nat k)) = Some b ->
-                  read_volume md5 b = Ok v -> v_sethash_stored v = sh /\ v_number v = N.of_nat k).
-      { intros size1 o H1 Ho Hhead. destruct (IH _ _ _ _ _ _ _ Hs1 H1) as [A B]. rewrite Hf1 in A, B.
-        split; [rewrite A, Ho, <- app_assoc; reflexivity|].
-        intros k b v [<-|Hk]; [apply Hhead|apply B; exact Hk]. }
+                vslot (io_fs st) ix sh (S i) = o ->
+                slots = acc ++ vslot (io_fs st) ix sh (S i) :: map (vslot (io_fs st) ix sh) (seq (S (S i)) n)).
+      { intros size1 o H1 Ho. pose proof (IH _ _ _ _ _ _ _ Hs1 H1) as A. rewrite Hf1 in A.
+        rewrite A, Ho, <- app_assoc. reflexivity. }
       destruct (fs_lookup (io_fs st) (volume_path ix (N.of_nat (S i)))) as [b|] eqn:EL.
       + destruct (read_volume md5 b) as [v|x|q] eqn:EV; [| |discriminate H].
-        * destruct (bytes_eqb (v_sethash_stored v) sh) eqn:E1; cbn [negb] in H; [|discriminate H].
-          destruct (v_number v =? N.of_nat (S i)) eqn:E2; cbn [negb] in H; [|discriminate H].
+        * destruct (bytes_eqb (v_sethash_stored v) sh) eqn:E1; cbn [negb] in H.
+          2:{ apply (Step _ _ H). unfold vslot. rewrite EL, EV, E1. reflexivity. }
+          destruct (v_number v =? N.of_nat (S i)) eqn:E2; cbn [negb] in H.
+          2:{ apply (Step _ _ H). unfold vslot. rewrite EL, EV, E1, E2. reflexivity. }
           destruct (Nat.eqb (length (v_data v)) 0); [discriminate H|].
           lazymatch type of H with (if ?c then _ else _) = _ => destruct c end; [discriminate H|].
-          apply (Step _ _ H).
-          -- unfold vslot. rewrite EL, EV. reflexivity.
-          -- intros b' v' Hb' Hv'. injection Hb' as <-. rewrite EV in Hv'. injection Hv' as <-.
-             split; [apply bytes_eqb_eq; exact E1|apply N.eqb_eq; exact E2].
-        * apply (Step _ _ H).
-          -- unfold vslot. rewrite EL, EV. reflexivity.
-          -- intros b' v' Hb' Hv'. injection Hb' as <-. rewrite EV in Hv'. discriminate Hv'.
+          apply (Step _ _ H). unfold vslot. rewrite EL, EV, E1, E2. reflexivity.
+        * apply (Step _ _ H). unfold vslot. rewrite EL, EV. reflexivity.
       + destruct (is_dir (io_fs st) (volume_path ix (N.of_nat (S i)))); [discriminate H|].
-        apply (Step _ _ H).
-        * unfold vslot. rewrite EL. reflexivity.
-        * intros b' v' Hb'. discriminate Hb'.
+        apply (Step _ _ H). unfold vslot. rewrite EL. reflexivity.
   Qed.
 
-  (* the volume numbers LoadParityData looks at: 1 .. maxvol *)
-  Definition maxvol (s : p1state) : nat := N.to_nat (N.min (256 - v_count (s_vol s)) 99).
+  (* the volume numbers LoadParityData looks at: 1 .. maxvol.  Only the entries SAVED in the volume set are shards and
+     count against the limit of 256 *)
+  Definition maxvol (s : p1state) : nat := N.to_nat (N.min (256 - N.of_nat (length (s_saved s))) 99).
 
   (* B1, the whole table: position k of s_parity is the slot of volume k+1; the table ends at the last usable
-     volume, so nothing beyond it is usable; every parsed volume among 1..maxvol carries the index's stored set hash
-     and the number of its file name *)
+     volume, so nothing beyond it is usable; every volume counted among 1..maxvol is a file that parses, carries the
+     index's stored set hash and the number of its file name (a file that parses but carries another set hash or
+     number is NOT counted: vslot is None there) *)
   Theorem B1_volumes_exact : forall ix fs s st1,
     p1_load md5 ix (io_init fs []) = (Ok s, st1) ->
-    s_parity s = map (vslot fs ix) (seq 1 (length (s_parity s))) /\
+    let sh := v_sethash_stored (s_vol s) in
+    s_parity s = map (vslot fs ix sh) (seq 1 (length (s_parity s))) /\
     (length (s_parity s) <= maxvol s)%nat /\
-    (forall k, (length (s_parity s) < k <= maxvol s)%nat -> vslot fs ix k = None) /\
-    (forall k b v, (1 <= k <= maxvol s)%nat -> fs_lookup fs (volume_path ix (N.of_nat k)) = Some b ->
-       read_volume md5 b = Ok v ->
-       v_sethash_stored v = v_sethash_stored (s_vol s) /\ v_number v = N.of_nat k) /\
+    (forall k, (length (s_parity s) < k <= maxvol s)%nat -> vslot fs ix sh k = None) /\
+    (forall k d, vslot fs ix sh k = Some d ->
+       exists b v, fs_lookup fs (volume_path ix (N.of_nat k)) = Some b /\ read_volume md5 b = Ok v /\
+         v_sethash_stored v = sh /\ v_number v = N.of_nat k /\ v_data v = d) /\
     fc_pusable (file_counts s) =
-      length (filter (fun k => match vslot fs ix k with Some _ => true | None => false end) (seq 1 (maxvol s))).
+      length (filter (fun k => match vslot fs ix sh k with Some _ => true | None => false end) (seq 1 (maxvol s))).
   Proof.
     intros ix fs s st1 HL.
     destruct (p1_load_inv md5 _ _ _ _ HL) as (b & sa & v & ds & sb & slots & size & _ & ER & EV & _ & ELD & _ & _ & ELV & ->).
-    unfold maxvol. cbn [s_vol s_parity file_counts fc_pusable].
+    unfold maxvol. cbn [s_vol s_parity s_saved file_counts fc_pusable]. unfold nsaved in ELV.
     pose proof (io_read_pres ix (io_init fs [])) as P. rewrite ER in P. cbn [snd] in P.
     destruct P as (Pf & Ps & _). cbn [io_init io_fs io_sched] in Pf, Ps.
     pose proof (load_data_pres md5 ix (filter saved (v_entries v)) sa) as P2. rewrite ELD in P2. cbn [snd] in P2.
     destruct P2 as (Pf2 & Ps2 & _).
     assert (Hsb : io_sched sb = []) by congruence. assert (Hfb : io_fs sb = fs) by congruence.
-    destruct (load_vols_exact ix _ _ _ _ _ _ _ _ _ Hsb ELV) as [A B]. cbn [app] in A. rewrite Hfb in A, B.
-    set (mv := N.to_nat (N.min (256 - v_count v) 99)) in *.
+    pose proof (load_vols_exact ix _ _ _ _ _ _ _ _ _ Hsb ELV) as A. cbn [app] in A. rewrite Hfb in A.
+    set (sh := v_sethash_stored v) in *.
+    set (mv := N.to_nat (N.min (256 - N.of_nat (length (filter saved (v_entries v)))) 99)) in *.
     set (m := S (last_some_index slots 0 0)).
-    assert (Hfl : firstn m slots = map (vslot fs ix) (seq 1 (Nat.min m mv))) by (rewrite A; apply firstn_map_seq).
+    assert (Hfl : firstn m slots = map (vslot fs ix sh) (seq 1 (Nat.min m mv))) by (rewrite A; apply firstn_map_seq).
     assert (Hlen : length (firstn m slots) = Nat.min m mv) by (rewrite Hfl, map_length, seq_length; reflexivity).
     split; [rewrite Hlen; exact Hfl|]. split; [rewrite Hlen; lia|]. split; [|split].
     - intros k Hk. rewrite Hlen in Hk.
-      destruct (vslot fs ix k) as [x|] eqn:EK; [|reflexivity]. exfalso.
+      destruct (vslot fs ix sh k) as [x|] eqn:EK; [|reflexivity]. exfalso.
       assert (Hn : nth_error slots (k - 1) = Some (Some x)).
-      { rewrite A. rewrite (map_nth_error (vslot fs ix) (k - 1) (seq 1 mv) (d := k)); [rewrite EK; reflexivity|].
+      { rewrite A. rewrite (map_nth_error (vslot fs ix sh) (k - 1) (seq 1 mv) (d := k)); [rewrite EK; reflexivity|].
         rewrite (nth_error_nth' _ 0%nat) by (rewrite seq_length; lia). rewrite seq_nth by lia. f_equal. lia. }
       pose proof (proj2 (last_some_index_spec slots 0 0) _ _ Hn) as Hle. unfold m in Hk. lia.
-    - intros k b' v' Hk. apply B. apply in_seq. lia.
+    - intros k d. apply vslot_some.
     - unfold m. rewrite count_present_firstn_last, A. apply count_present_map.
   Qed.
 
@@ -1374,36 +1406,33 @@ Section TruthfulPar1.
     destruct (B1_volumes_exact ix fs s st1 HL) as (E & Hle & _ & Hchk & _).
     destruct (p1_load_parity md5 _ _ _ _ HL) as [Hinv _].
     assert (Hlt : (k < length (s_parity s))%nat) by (apply nth_error_Some; rewrite Hk; discriminate).
-    assert (Hv : vslot fs ix (S k) = Some d).
+    assert (Hv : vslot fs ix (v_sethash_stored (s_vol s)) (S k) = Some d).
     { rewrite E in Hk. apply nth_error_map_inv in Hk. destruct Hk as (x & Hx & Hv).
       rewrite (nth_error_nth' _ 0%nat) in Hx by (rewrite seq_length; exact Hlt). rewrite seq_nth in Hx by exact Hlt.
       injection Hx as <-. exact Hv. }
-    unfold vslot in Hv.
-    destruct (fs_lookup fs (volume_path ix (N.of_nat (S k)))) as [b|] eqn:EL; [|discriminate Hv].
-    destruct (read_volume md5 b) as [v|x|q] eqn:EV; try discriminate Hv. injection Hv as Hd.
-    exists b, v. split; [reflexivity|]. split; [exact EV|].
-    destruct (Hchk (S k) b v ltac:(lia) EL EV) as [H1 H2]. split; [exact H1|]. split; [exact H2|]. split; [exact Hd|].
+    destruct (Hchk (S k) d Hv) as (b & v & EL & EV & H1 & H2 & Hd).
+    exists b, v. split; [exact EL|]. split; [exact EV|]. split; [exact H1|]. split; [exact H2|]. split; [exact Hd|].
     apply Hinv. apply nth_error_In with k. exact Hk.
   Qed.
 
-  (* ... and per volume counted unusable (None inside the table): no file, or read_volume rejects it *)
+  (* ... and per volume counted unusable (None inside the table): no file, or a file that is not a volume of the set -
+     read_volume rejects it, or it parses and carries another set hash than the index or another number than its file
+     name (Par1Facts.not_member) *)
   Theorem B1_volume_unusable : forall ix fs s st1 k,
     p1_load md5 ix (io_init fs []) = (Ok s, st1) ->
     nth_error (s_parity s) k = Some None ->
     fs_lookup fs (volume_path ix (N.of_nat (S k))) = None \/
-    exists b x, fs_lookup fs (volume_path ix (N.of_nat (S k))) = Some b /\ read_volume md5 b = Err x.
+    exists b, fs_lookup fs (volume_path ix (N.of_nat (S k))) = Some b /\
+      not_member md5 (v_sethash_stored (s_vol s)) (N.of_nat (S k)) b.
   Proof.
     intros ix fs s st1 k HL Hk.
     destruct (B1_volumes_exact ix fs s st1 HL) as (E & _).
     assert (Hlt : (k < length (s_parity s))%nat) by (apply nth_error_Some; rewrite Hk; discriminate).
-    assert (Hv : vslot fs ix (S k) = None).
+    assert (Hv : vslot fs ix (v_sethash_stored (s_vol s)) (S k) = None).
     { rewrite E in Hk. apply nth_error_map_inv in Hk. destruct Hk as (x & Hx & Hv).
       rewrite (nth_error_nth' _ 0%nat) in Hx by (rewrite seq_length; exact Hlt). rewrite seq_nth in Hx by exact Hlt.
       injection Hx as <-. exact Hv. }
-    unfold vslot in Hv.
-    destruct (fs_lookup fs (volume_path ix (N.of_nat (S k)))) as [b|]; [|left; reflexivity].
-    right. destruct (read_volume md5 b) as [v|x|q] eqn:EV; [discriminate Hv|exists b, x; split; [reflexivity|exact EV]|].
-    exfalso. exact (read_volume_np md5 b q EV).
+    exact (vslot_none fs ix _ (S k) Hv).
   Qed.
 
   (** * the numbers Verify returns *)
@@ -1412,7 +1441,7 @@ Section TruthfulPar1.
     exists s, p1_load md5 ix (io_init fs []) = (Ok s, st) /\ c = file_counts s /\
       fc_usable c = length (filter (file_usable fs ix) (s_saved s)) /\
       fc_unusable c = length (filter (fun e => negb (file_usable fs ix e)) (s_saved s)) /\
-      fc_pusable c = length (filter (fun k => match vslot fs ix k with Some _ => true | None => false end)
+      fc_pusable c = length (filter (fun k => match vslot fs ix (v_sethash_stored (s_vol s)) k with Some _ => true | None => false end)
                                     (seq 1 (maxvol s))).
   Proof.
     intros ix alldata fs c ok st H. unfold par1_verify in H.
@@ -1439,6 +1468,7 @@ Print Assumptions F1_counts.
 Print Assumptions B1_volumes_exact.
 Print Assumptions B1_volumes_genuine.
 Print Assumptions B1_volume_unusable.
+Print Assumptions vslot_spec.
 Print Assumptions par1_verify_counts_truthful.
 
 (** * PAR1, non-vacuity: the archive of Proofs/Par1Clean.v (files "x", "y", two volumes) with "x" deleted and the
@@ -1501,15 +1531,15 @@ Module TruthfulExample1.
 
   Example ex1_B1_unusable :
     fs_lookup fsd (volume_path ex_ix 1) = None \/
-    exists b x, fs_lookup fsd (volume_path ex_ix 1) = Some b /\ read_volume toy_hash b = Err x.
+    exists b, fs_lookup fsd (volume_path ex_ix 1) = Some b /\ not_member toy_hash (v_sethash_stored (s_vol loaded)) 1 b.
   Proof.
     apply (B1_volume_unusable toy_hash ex_ix fsd loaded _ 0 loaded_eq). vm_compute. reflexivity.
   Qed.
 
   Example ex1_B1_exact :
-    s_parity loaded = map (vslot toy_hash fsd ex_ix) (seq 1 2) /\
+    s_parity loaded = map (vslot toy_hash fsd ex_ix (v_sethash_stored (s_vol loaded))) (seq 1 2) /\
     fc_pusable (file_counts loaded) =
-      length (filter (fun k => match vslot toy_hash fsd ex_ix k with Some _ => true | None => false end)
+      length (filter (fun k => match vslot toy_hash fsd ex_ix (v_sethash_stored (s_vol loaded)) k with Some _ => true | None => false end)
                      (seq 1 (maxvol loaded))) /\
     maxvol loaded = 99%nat.
   Proof.
@@ -1576,7 +1606,7 @@ Module TruthfulVerifyExamples.
       fc_usable (file_counts TruthfulExample1.loaded) = length (filter (file_usable toy_hash TruthfulExample1.fsd ex_ix) (s_saved s)) /\
       fc_unusable (file_counts TruthfulExample1.loaded) = length (filter (fun e => negb (file_usable toy_hash TruthfulExample1.fsd ex_ix e)) (s_saved s)) /\
       fc_pusable (file_counts TruthfulExample1.loaded) =
-        length (filter (fun k => match vslot toy_hash TruthfulExample1.fsd ex_ix k with Some _ => true | None => false end)
+        length (filter (fun k => match vslot toy_hash TruthfulExample1.fsd ex_ix (v_sethash_stored (s_vol s)) k with Some _ => true | None => false end)
                        (seq 1 (maxvol s))).
   Proof.
     apply (par1_verify_counts_truthful toy_hash ex_ix false TruthfulExample1.fsd _ false).
